@@ -2,7 +2,7 @@
    implementation responses.  Mismatch tags: "S:" = an observable the property itself
    determines (status class, S3 code, body, ETag, listing contents) — a spec failure;
    "M:" = an ancillary observable only the model fixes (header presence etc.). *)
-From GF Require Import Base.Lit Base.Int64 Model.Mem Model.Handlers Extract.Checks.
+From GF Require Import Base.Lit Base.Int64 Model.Mem Model.Handlers Model.Uploader Extract.Checks.
 Open Scope string_scope.
 Open Scope list_scope.
 Open Scope Z_scope.
@@ -36,10 +36,17 @@ Inductive hop :=
 | HMultiDelete (b : list N) (ks : list (list N * list N))
 | HCopy (sb sk b k : list N)
 | HSetVersioning (b : list N) (enable : bool)
-| HList (b pre : list N) (delim : option N) (marker : list N) (has_marker : bool) (maxkeys : Z) (v2 : bool).
+| HList (b pre : list N) (delim : option N) (marker : list N) (has_marker : bool) (maxkeys : Z) (v2 : bool)
+| HInitiate (b k : list N) (m : meta)
+| HUploadPart (b k uid : list N) (pn : Z) (body : list N)
+| HComplete (b k uid : list N) (parts : list (Z * list N))
+| HAbort (b k uid : list N)
+| HListParts (b k uid : list N) (marker limit : Z)
+| HListUploads (b pre : list N) (delim : option N) (key_marker id_marker : list N) (limit : Z).
 
-Record hstate := { hs_model : state; hs_tbl : list (N * list N) }.
-Definition hinit : hstate := {| hs_model := init; hs_tbl := [] |}.
+Record hstate := { hs_model : state; hs_tbl : list (N * list N);
+                   hs_up : ustate; hs_utbl : list (N * list N) }.
+Definition hinit : hstate := {| hs_model := init; hs_tbl := []; hs_up := uinit; hs_utbl := [] |}.
 
 (* version id translation: implementation string <-> model rank *)
 Fixpoint tbl_id (t : list (N * list N)) (s : list N) : option N :=
@@ -122,6 +129,7 @@ Definition to_op (t : list (N * list N)) (o : hop) : op :=
   | HCopy sb sk b k => OCopy sb sk b k
   | HSetVersioning b e => OSetVersioning b e
   | HList b pre d mk hm mx _ => OList b pre d mk hm mx
+  | _ => OListBuckets       (* uploader operations are stepped by [up_step] *)
   end.
 
 Definition is_head_op (o : hop) : bool := match o with HHead _ _ _ | HHeadBucket _ => true | _ => false end.
@@ -137,11 +145,11 @@ Definition check_vid (t : list (N * list N)) (exp : option N) (ob : obs) : list 
       end
   end.
 
-Definition hist_step (md5 : list N -> list N) (c : config) (hs : hstate) (o : hop) (ob : obs)
+Definition obj_step (md5 : list N -> list N) (c : config) (hs : hstate) (o : hop) (ob : obs)
   : hstate * list (list N) :=
   let t := hs_tbl hs in
   let '(s', r) := step c (hs_model hs) (to_op t o) in
-  let mk t' := {| hs_model := s'; hs_tbl := t' |} in
+  let mk t' := {| hs_model := s'; hs_tbl := t'; hs_up := hs_up hs; hs_utbl := hs_utbl hs |} in
   match r with
   | RErr e => (mk t, exp_err e ob (is_head_op o))
   | ROk => (mk t, exp_ok ob)
@@ -205,3 +213,121 @@ Definition walk_check (maxkeys : Z) (pages : list page_obs) (full : page_obs) (t
   expect (list_eqb keys (pg_keys full)) "pages-differ-from-unpaginated-keys" ++
   expect (list_eqb pres (pg_prefixes full)) "pages-differ-from-unpaginated-prefixes" ++
   expect (match rev pages with p :: _ => negb (pg_truncated p) | [] => true end) "last-page-truncated".
+
+(* ---- multipart uploads ------------------------------------------------------------ *)
+Definition ustatus_of (e : uerr) : Z * list N :=
+  match e with
+  | UNoSuchUpload => (404, B "NoSuchUpload")
+  | UInvalidPart => (400, B "InvalidPart")
+  | UInvalidPartOrder => (400, B "InvalidPartOrder")
+  | UNoSuchBucket => (404, B "NoSuchBucket")
+  | UMissingContentLength => (411, B "MissingContentLength")
+  | UPanic => (500, B "PANIC")
+  | UBackend e => (status_of e, code_of e)
+  end.
+Definition exp_uerr (e : uerr) (ob : obs) : list (list N) :=
+  match e with
+  | UPanic => expect (ob_panic ob) "S:model-panics"
+  | _ => expect (negb (ob_panic ob)) "S:panic" ++ expect (ob_status ob =? fst (ustatus_of e)) "S:status" ++
+         expect (beq (ob_code ob) (snd (ustatus_of e))) "S:code"
+  end.
+
+Definition uid_in (t : list (N * list N)) (s : list N) : N :=
+  match tbl_id t s with Some i => i | None => 0%N end.
+
+Fixpoint parts_eqb (a : list (nat * part)) (b : list (list N * (Z * list N))) : bool :=
+  match a, b with
+  | [], [] => true
+  | (n, p) :: a', (k, (sz, et)) :: b' =>
+      beq k (dec (Z.of_nat n)) && (sz =? blen (pt_body p)) && beq et (pt_etag p) && parts_eqb a' b'
+  | _, _ => false
+  end.
+
+Fixpoint uploads_eqb (t : list (N * list N)) (a : list (list N * N)) (b : list (list N * (Z * list N))) : bool :=
+  match a, b with
+  | [], [] => true
+  | (k, i) :: a', (k', (_, idstr)) :: b' =>
+      beq k k' && (match tbl_str t i with Some s => beq s idstr | None => false end) && uploads_eqb t a' b'
+  | _, _ => false
+  end.
+
+Definition up_step (md5 : list N -> list N) (c : config) (hs : hstate) (o : hop) (ob : obs)
+  : hstate * list (list N) :=
+  let ut := hs_utbl hs in
+  let u := hs_up hs in
+  let s := hs_model hs in
+  let mk s' u' ut' := {| hs_model := s'; hs_tbl := hs_tbl hs; hs_up := u'; hs_utbl := ut' |} in
+  match o with
+  | HInitiate b k m =>
+      match ensure_bucket c s b with
+      | (s1, Some e) => (mk s1 u ut, exp_err e ob false)
+      | (s1, None) =>
+          let '(u', id) := create_upload u b k m in
+          let '(ut', ok) := bind ut id (ob_next ob) in
+          (mk s1 u' ut', exp_ok ob ++ expect (negb (beq (ob_next ob) [])) "S:no-upload-id" ++ expect ok "S:upload-id-not-fresh")
+      end
+  | HUploadPart b k uid pn body =>
+      match upload_part md5 hex_of u b k (uid_in ut uid) pn body with
+      | (u', (Some e, _)) => (mk s u' ut, exp_uerr e ob)
+      | (u', (None, et)) => (mk s u' ut, exp_ok ob ++ expect (beq (ob_etag ob) et) "S:part-etag")
+      end
+  | HComplete b k uid parts =>
+      match complete_upload md5 hex_of u s b k (uid_in ut uid) parts with
+      | (u', s', (Some e, _)) => (mk s' u' ut, exp_uerr e ob)
+      | (u', s', (None, et)) => (mk s' u' ut, exp_ok ob ++ expect (beq (ob_etag ob) et) "S:complete-etag")
+      end
+  | HAbort b k uid =>
+      match abort_upload u b k (uid_in ut uid) with
+      | (u', Some e) => (mk s u' ut, exp_uerr e ob)
+      | (u', None) => (mk s u' ut, exp_ok ob)
+      end
+  | HListParts b k uid marker limit =>
+      match ensure_bucket c s b with
+      | (s1, Some e) => (mk s1 u ut, exp_err e ob false)
+      | (s1, None) =>
+          match list_parts u b k (uid_in ut uid) marker limit with
+          | inl (Some e) => (mk s1 u ut, exp_uerr e ob)
+          | inl None => (mk s1 u ut, [])
+          | inr r => (mk s1 u ut, exp_ok ob ++
+                        expect (parts_eqb (pr_parts r) (ob_contents ob)) "S:parts" ++
+                        expect (Bool.eqb (pr_truncated r) (ob_truncated ob)) "M:is-truncated" ++
+                        (if pr_truncated r then expect (beq (ob_next ob) (dec (Z.of_nat (pr_next r)))) "M:next-part-number-marker" else []))
+          end
+      end
+  | HListUploads b pre d km im limit =>
+      match ensure_bucket c s b with
+      | (s1, Some e) => (mk s1 u ut, exp_err e ob false)
+      | (s1, None) =>
+          let idm := match im with [] => None | _ => Some (uid_in ut im) end in
+          match list_uploads u b pre d km idm limit with
+          | inl (Some e) => (mk s1 u ut, exp_uerr e ob)
+          | inl None => (mk s1 u ut, [])
+          | inr r => (mk s1 u ut, exp_ok ob ++
+                        expect (uploads_eqb ut (ur_uploads r) (ob_contents ob)) "S:uploads" ++
+                        expect (same_set (ur_prefixes r) (ob_names ob)) "S:upload-common-prefixes" ++
+                        expect (Bool.eqb (ur_truncated r) (ob_truncated ob)) "M:is-truncated" ++
+                        (if ur_truncated r then
+                           expect (beq (ob_next ob) (ur_next_key r)) "M:next-key-marker" ++
+                           expect (match tbl_str ut (ur_next_id r) with Some s => beq s (ob_vid ob) | None => false end) "M:next-upload-id-marker"
+                         else []))
+          end
+      end
+  | _ => (hs, [])
+  end.
+
+Definition hist_step (md5 : list N -> list N) (c : config) (hs : hstate) (o : hop) (ob : obs)
+  : hstate * list (list N) :=
+  match o with
+  | HInitiate _ _ _ | HUploadPart _ _ _ _ _ | HComplete _ _ _ _ | HAbort _ _ _
+  | HListParts _ _ _ _ _ | HListUploads _ _ _ _ _ _ => up_step md5 c hs o ob
+  | _ => obj_step md5 c hs o ob
+  end.
+
+(* walk oracle for upload / part listings: every entry once, concatenation = unpaged *)
+Definition entries_walk_check (limit : Z) (pages : list (list (list N))) (pre_pages : list (list (list N)))
+    (full : list (list N)) (full_pre : list (list N)) (terminated : bool) : list (list N) :=
+  expect terminated "walk-did-not-terminate" ++
+  expect (forallb (fun p => Z.of_nat (length p) <=? limit) pages) "page-exceeds-limit" ++
+  expect (list_eqb (concat pages) full) "pages-differ-from-unpaginated-entries" ++
+  expect (nodupb (concat pre_pages)) "common-prefix-repeated" ++
+  expect (same_set (concat pre_pages) full_pre) "pages-differ-from-unpaginated-prefixes".
